@@ -6,6 +6,7 @@
   delivered states: labelling a variable neither loses nor duplicates a solution.
 -/
 import PvModel.Props.C17
+import PvModel.Proofs.Label
 namespace Pv
 open State Term Goal FD
 
@@ -113,6 +114,29 @@ theorem C17_label_exactly_once {ord : Order} (ho : OrderOK ord) (dfs : Call → 
     | some s =>
       exact ⟨(v, s), List.mem_filterMap.2 ⟨v, hvi, by rw [hfv]; rfl⟩, hv⟩
 
+/-- LABELLING THE QUERY TERM (`force_ans` on any term: variables with domains, lists, compounds with their fields,
+    nested to any depth), on the engine, from any well-formed unpoisoned state: whenever the textbook evaluation
+    finishes within its fuel, the interleaving search terminates, and — unless a delivered state is poisoned
+    (the model's FUEL) — the delivered states PARTITION the valuations the labelled state describes:
+    (1) each is well-formed and describes only valuations of the labelled state,
+    (2) every valuation of the labelled state is described by one of them,
+    (3) no two of them (at different positions of the answer list) describe a common valuation.
+    Every solution is returned exactly once. -/
+theorem C17_label_term_exactly_once {ord : Order} (ho : OrderOK ord) (dfs : Call → State → State × G) (pf M n N : Nat)
+    (t : Term) (s : State) (w : WFS s) (hi : Inv s) (hp : s.panic = none) (zs : List State)
+    (h : evalRef dfs N (forceAns ord n t) s = some zs) :
+    ∃ k ys, drainF (solveAt dfs pf (M + 1)) k (solveAt dfs pf (M + 1) (forceAns ord n t) s) = some ys ∧
+      ((∀ y ∈ ys, y.panic = none) →
+        (∀ y ∈ ys, WFS y ∧ Inv y ∧ ∀ γ, Sem NoI γ y → Sem NoI γ s) ∧
+        (∀ γ, Sem NoI γ s → ∃ y ∈ ys, Sem NoI γ y) ∧
+        ys.Pairwise fun a b => ∀ γ, ¬ (Sem NoI γ a ∧ Sem NoI γ b)) := by
+  obtain ⟨xs, hz, pz⟩ := ref_perm dfs pf M _ _ _ _ h M
+  obtain ⟨k, ys, hdr, py⟩ := drain_perm _ (topOK_solveAt dfs pf M) hz
+  refine ⟨k, ys, hdr, fun hall => ?_⟩
+  have hp' : zs.Perm ys := pz.trans py
+  have := ((forceAns_labelOK dfs ho n t).1 N s zs w hi hp h fun y hy => hall y (hp'.mem_iff.1 hy)).perm hp'
+  exact this
+
 section Examples
 attribute [local instance] Mode.strict
 /-- non-vacuity: after `x in {1, 2, 4}, x != 2` the state meets the hypotheses (x unbound with a domain), and
@@ -121,6 +145,16 @@ private def stL : Res State :=
   (domFd Order.default (State.empty 1) (.var 0) (.sparse [1, 2, 4])).bind fun s => postCst Order.default s (.diseqfd (.var 0) (Term.num 2))
 example : (match stL with
     | .ok s => (s.σ 0 == Term.var 0) && (s.dget 0 == some (.sparse [1, 4])) && s.panic.isNone
+    | _ => false) = true := by decide
+/-- non-vacuity of `C17_label_term_exactly_once`: x, y in 1..=2 with x != y; labelling the list term [x, y] finishes
+    on the textbook semantics with the two states x = 1, y = 2 and x = 2, y = 1, none of them poisoned -/
+private def stL2 : Res State :=
+  ((domFd Order.default (State.empty 2) (.var 0) (.interval 1 2)).bind fun s => domFd Order.default s (.var 1) (.interval 1 2)).bind
+    fun s => postCst Order.default s (.diseqfd (.var 0) (.var 1))
+example : (match stL2 with
+    | .ok s => (match evalRef (fun _ st => (st, (Goal.fail : G))) 40 (forceAns Order.default 10 (Term.ofList [.var 0, .var 1])) s with
+      | some zs => zs.map (fun z => (z.σ 0, z.σ 1, z.panic.isNone)) == [(Term.num 1, Term.num 2, true), (Term.num 2, Term.num 1, true)]
+      | none => false)
     | _ => false) = true := by decide
 end Examples
 
